@@ -117,7 +117,7 @@ func c08CountStrings(maxLen int) int64 {
 
 // ---- structural documents with directives at every position
 
-var c08Args = []any{nil, true, 1, "a", "a.b", []any{}, []any{"a"}, map[string]any{}, map[string]any{"a": 1}, "$merge:a", `$"{a}"`, 2.5, "json", "$repeat"}
+var c08Args = []any{nil, true, 1, "a", "a.b", []any{}, []any{"a"}, map[string]any{}, map[string]any{"a": 1}, "$merge:a", `$"{a}"`, 2.5, "json", "$repeat", -1, 0, map[string]any{"x": -1, "y": 2}}
 var c08DirKeys = []string{"$merge", "$replace", "$encode", "$decode", "$value", "$repeat", "$output", "$match", "$delete", "$invert", "$parent", "$path",
 	"$merge:a", "$replace:a", `$"{a}"`, "$env:HOME", "$required", "$bogus"}
 var c08DirStrings = []any{"$merge:a", "$merge:", "$merge:a.b", "$replace:a", "$replace:[a]", "$merge:[{a: 1}, a]", `$"{a}"`, `$"{b}"`, `$"{"`, `$"{}"`, `$"{$repeat}"`,
